@@ -152,6 +152,58 @@ def Feature.cover (f : Feature R) (ctx : Ctx R) (q : Query R) : Except Err (Opti
   | .plume p => (p.covers ctx q).map (fun o => o.map (fun rel => Hit.areaLike p.tag p.models p.minDepth p.maxDepth rel))
   | .line l => (l.covers ctx q).map (fun o => o.map (fun h => Hit.line l h))
 
+/-- `idx xs i = .ok a` names an element of `xs` -/
+theorem idx_mem {α : Type} {xs : List α} {i : Nat} {a : α} (h : idx xs i = .ok a) : a ∈ xs := by
+  unfold idx at h
+  split at h
+  · rename_i v hv
+    cases h
+    exact List.mem_of_getElem? hv
+  · cases h
+
+/-- the two segments of a hit are segments of two of the feature's sections -/
+theorem LineFeature.coversBody_mem (f : LineFeature R) (ctx : Ctx R) (q : Query R) (hit : LineHit R)
+    (h : f.coversBody ctx q = .ok (some hit)) :
+    (∃ sec ∈ f.sections, hit.cur ∈ sec) ∧ (∃ sec ∈ f.sections, hit.next ∈ sec) := by
+  unfold LineFeature.coversBody at h
+  simp only [bind, Except.bind, pure, Except.pure] at h
+  split at h
+  · cases h
+  split at h
+  · cases h
+  split at h
+  · cases h
+  rename_i secCur h0
+  split at h
+  · cases h
+  rename_i secNext h1
+  split at h
+  · cases h
+  rename_i cur h2
+  split at h
+  · cases h
+  rename_i next h3
+  split at h
+  · cases h
+  split at h
+  · cases h
+  split at h <;> split at h <;>
+    first
+    | (cases h; exact ⟨⟨secCur, idx_mem h0, idx_mem h2⟩, ⟨secNext, idx_mem h1, idx_mem h3⟩⟩)
+    | cases h
+
+theorem LineFeature.covers_mem (f : LineFeature R) (ctx : Ctx R) (q : Query R) (hit : LineHit R)
+    (h : f.covers ctx q = .ok (some hit)) :
+    (∃ sec ∈ f.sections, hit.cur ∈ sec) ∧ (∃ sec ∈ f.sections, hit.next ∈ sec) := by
+  refine f.coversBody_mem ctx q hit ?_
+  unfold LineFeature.covers at h
+  simp only [bind, Except.bind, pure, Except.pure] at h
+  split at h
+  · exact absurd h (by simp)
+  · split at h
+    · exact absurd h (by simp)
+    · exact h
+
 theorem Feature.cover_tag (f : Feature R) (ctx : Ctx R) (q : Query R) (hit : Hit R) (h : f.cover ctx q = .ok (some hit)) :
     hit.tag = f.tag := by
   cases f with
@@ -208,17 +260,13 @@ theorem Feature.apply_eq (f : Feature R) (ctx : Ctx R) (q : Query R) (pes : List
       | none => simp [liftE_ok, Except.map, QM.pure_apply]
       | some rel => simp [liftE_ok, Except.map, Hit.paintAll, Hit.paintAt, paintAll]
   | line l =>
-    simp only [Feature.apply, LineFeature.apply, Feature.cover]
+    simp only [Feature.apply, LineFeature.apply, Feature.cover, QM.bind_apply]
     cases h : l.covers ctx q with
-    | error e => simp [bind, Except.bind, liftE_error, Except.map]
+    | error e => simp [liftE_error, Except.map]
     | ok o =>
       cases o with
-      | none => simp [bind, Except.bind, pure, Except.pure, liftE_ok, Except.map]
-      | some hh =>
-        simp only [bind, Except.bind, Except.map, Option.map]
-        have := liftE_foldlM (G := G) (fun out (pe : Req × Nat) => linePaintAt l ctx q hh pe.1 pe.2 out) pes out
-        simp only [Hit.paintAll, Hit.paintAt]
-        rw [← this]
+      | none => simp [liftE_ok, Except.map, QM.pure_apply]
+      | some hh => simp [liftE_ok, Except.map, Hit.paintAll, Hit.paintAt]
 
 /-- a feature, block-wise -/
 def Feature.applyBlocks (f : Feature R) (ctx : Ctx R) (q : Query R) (ps : List Req) (bs : List (List R)) : QM G (List (List R)) :=
@@ -388,7 +436,7 @@ def World.props3Blocks (w : World R) (pt : P3 R) (depth : R) (ps : List Req) : Q
   | .ok bs =>
     if earlyReturn w.ctx depth ps then .ok (bs, g)
     else
-      match featuresBlocks w.features w.ctx ⟨pt, w.ctx.coord.toNatural pt, depth, w.ctx.gravity⟩ ps bs g with
+      match featuresBlocks w.features w.ctx (w.query pt depth) ps bs g with
       | .error e => .error e
       | .ok (bs', g') => .ok (reimposeBlocks w.ctx depth ps bs', g')
 
@@ -407,7 +455,7 @@ theorem World.props3_blocks (w : World R) (pt : P3 R) (depth : R) (ps : List Req
     | false =>
       simp only [Bool.false_eq_true, if_false, QM.bind_apply]
       rw [features_blocks w.features w.ctx _ ps bs hf g]
-      cases hfb : featuresBlocks w.features w.ctx ⟨pt, w.ctx.coord.toNatural pt, depth, w.ctx.gravity⟩ ps bs g with
+      cases hfb : featuresBlocks w.features w.ctx (w.query pt depth) ps bs g with
       | error e => simp [embedBlocks]
       | ok r =>
         obtain ⟨bs', g'⟩ := r
